@@ -74,6 +74,32 @@ CLAIMED = {
         "content) is a hypothesis of the fixed-point theorem only.",
    tech="Coq proof (list-index arithmetic by rev_ind, structural induction, fuel elimination) + differential correspondence",
    ref="6 C09"),
+ "C10": dict(
+   text="Machine-checked theorems over the model of get_dependencies/_resolve_dependencies and of the constructor "
+        "validation: collection is the pre-order sequence at every nesting level; for ANY strict weak version order "
+        "(then instantiated with the modelled numeric order) resolution keeps one object per name, in first-occurrence "
+        "order, namely the earliest object of maximal version; it is complete, idempotent, position independent; "
+        "dedup=False changes nothing; the numeric order is a total preorder with 1.9 < 1.10 = 1.10.0; construction "
+        "succeeds iff the arguments are well formed, with the documented error kinds, single item = one-element list. "
+        "Tied to the code by differential execution over multisets of colliding names/versions in random tree "
+        "placements, malformed constructor arguments, and version order vs packaging.version.",
+   note=TB + "packaging.version.Version is modelled for dotted release numbers only (PEP 440 epochs, pre/post/dev and local "
+        "versions are outside the model) and checked against the library on random versions each run.",
+   tech="Coq proof (loop invariant by rev_ind for an abstract order, instantiated; structural induction on trees) + differential correspondence",
+   ref="6 C10"),
+ "C15": dict(
+   text="Machine-checked theorems over the statement-level model of TagAttrDict (name/value normalisation, per-call "
+        "accumulation, merge with the str/HTML + rules, dict.update), Tag.__init__ argument splitting and "
+        "consolidate_attrs: exact characterisation of name normalisation (idempotent, no underscore left); a "
+        "construction call equals the declarative grouping by first appearance with values merged left to right "
+        "(join by single spaces for plain values); later update/__setitem__ replace and keep position; dropped "
+        "values change nothing; a raising operation leaves the map unchanged; invariants over every operation "
+        "history; rebuilding from consolidate_attrs equals direct construction. Tied to the code by differential "
+        "execution over colliding raw names, all value types and random update/assignment histories.",
+   note=TB + "Number formatting is Python's own str(x), passed to the model; keyword names _add_ws/_name/self are outside "
+        "the domain (consolidate_attrs forwards _add_ws to the throwaway Tag).",
+   tech="Coq proof (induction over argument lists and operation histories) + differential correspondence + spec oracle",
+   ref="6 C15"),
  "C19": dict(
    text="Finite theorems decided by kernel computation over tables regenerated from tags.py, svg.py, __init__.py "
         "and scripts/generate_tags.py on every run (all 113+66 wrappers have the exact pass-through shape, own "
